@@ -238,3 +238,83 @@ Proof.
   - intros t x Ht' Hx. destruct (E t Ht') as [_ [_ [_ [_ E5]]]]; auto.
   - intros t Ht'. destruct (E t Ht') as [_ [E2 _]]; auto.
 Qed.
+
+(* ================================================================== phase ordering *)
+(* per subgrid: the tasks of consecutive phases that touch it are linked by DIRECT child edges (what set_dependencies
+   does), and every phase 0..5 has a task touching it (so the direct edges chain up to an order between any two phases) *)
+Record phases_ordered (g : graph) : Prop := {
+  po_next : forall s t1 t2, t1 < length g -> t2 < length g ->
+            In s (touches (tk g t1)) -> In s (touches (tk g t2)) -> rk g t2 = S (rk g t1) ->
+            In t2 (children (tk g t1));
+  po_chain : forall s t k, t < length g -> In s (touches (tk g t)) -> k <= 5 ->
+             exists t', t' < length g /\ In s (touches (tk g t')) /\ rk g t' = k
+}.
+
+Lemma first_some_None : forall A B (f : A -> option B) l, first_some f l = None -> forall x, In x l -> f x = None.
+Proof.
+  induction l; simpl; intros H x Hx. tauto.
+  destruct (f a) eqn:E; try discriminate. destruct Hx; subst; auto.
+Qed.
+
+Lemma In_itasks_gen : forall (g : graph) a t, t < length g -> In (a + t, nth t g dtask) (combine (seq a (length g)) g).
+Proof.
+  induction g; simpl; intros. lia.
+  destruct t. left. f_equal. lia.
+  right. replace (a0 + S t) with (S a0 + t) by lia. apply IHg. lia.
+Qed.
+
+Lemma In_itasks : forall g t, t < length g -> In (t, tk g t) (itasks g).
+Proof. intros. unfold itasks, tk. apply (In_itasks_gen g 0 t H). Qed.
+
+Lemma In_touching : forall g s t, t < length g -> In s (touches (tk g t)) -> In (t, tk g t) (touching g s).
+Proof.
+  intros. unfold touching. apply filter_In. split. apply In_itasks; auto. cbn [snd]. apply memb_In; auto.
+Qed.
+
+Lemma touching_inv : forall g s p, In p (touching g s) ->
+  fst p < length g /\ snd p = tk g (fst p) /\ In s (touches (snd p)).
+Proof.
+  unfold touching, itasks. intros g s [t x] H. apply filter_In in H. destruct H as [H1 H2]. cbn [fst snd] in *.
+  apply memb_In in H2.
+  assert (G : forall (l : list task) a, In (t, x) (combine (seq a (length l)) l) -> a <= t < a + length l /\ x = nth (t - a) l dtask).
+  { induction l; simpl; intros. tauto. destruct H as [H|H].
+    - inversion H; subst. split. lia. rewrite Nat.sub_diag. reflexivity.
+    - apply IHl in H. destruct H as [A B]. split. lia. rewrite B.
+      replace (t - a0) with (S (t - S a0)) by lia. reflexivity. }
+  apply G in H1. destruct H1 as [A B]. rewrite Nat.sub_0_r in B. unfold tk. repeat split; auto. lia.
+Qed.
+
+Lemma le_smax : forall g t s, t < length g -> In s (touches (tk g t)) -> s <= smax g.
+Proof.
+  intros. unfold smax.
+  assert (F : Forall (fun k => k <= list_max (flat_map touches g)) (flat_map touches g)) by (apply list_max_le; lia).
+  rewrite Forall_forall in F. apply F. apply in_flat_map. exists (tk g t). split; auto. apply tk_In; auto.
+Qed.
+
+Theorem phases_ordered_check_sound : forall g, phases_ordered_check g = true -> phases_ordered g.
+Proof.
+  intros g H. unfold phases_ordered_check in H. destruct (phases_ordered_find g) eqn:E; [discriminate|].
+  unfold phases_ordered_find in E.
+  assert (P : forall s, s <= smax g -> bad_next (touching g s) = None /\ bad_chain (touching g s) = None).
+  { intros s Hs. pose proof (first_some_None _ _ _ _ E s) as Q. cbv beta zeta in Q.
+    assert (I : In s (seq 0 (S (smax g)))) by (apply in_seq; lia). specialize (Q I).
+    destruct (bad_next (touching g s)) as [[a b]|]; [discriminate|].
+    destruct (bad_chain (touching g s)) as [[a b]|]; [discriminate|]. auto. }
+  constructor.
+  - intros s t1 t2 H1 H2 T1 T2 R.
+    destruct (P s (le_smax g t1 s H1 T1)) as [B _]. unfold bad_next in B.
+    pose proof (first_some_None _ _ _ _ B _ (In_touching g s t1 H1 T1)) as B1. cbv beta in B1.
+    pose proof (first_some_None _ _ _ _ B1 _ (In_touching g s t2 H2 T2)) as B2. cbv beta in B2.
+    unfold trank in B2. cbn [fst snd] in B2. unfold rk in R. rewrite R, Nat.eqb_refl in B2.
+    destruct (memb t2 (children (tk g t1))) eqn:M; [|discriminate]. apply memb_In; auto.
+  - intros s t k Ht T Hk.
+    destruct (P s (le_smax g t s Ht T)) as [_ C]. unfold bad_chain in C.
+    pose proof (In_touching g s t Ht T) as I.
+    destruct (touching g s) as [|p L] eqn:EL. destruct I.
+    assert (Ik : In k (seq 0 6)) by (apply in_seq; lia).
+    pose proof (first_some_None _ _ _ _ C k Ik) as C1. cbv beta in C1.
+    destruct (existsb (fun q => trank q =? k) (p :: L)) eqn:X; [|discriminate].
+    apply existsb_exists in X. destruct X as [q [Q1 Q2]]. rewrite <- EL in Q1.
+    apply touching_inv in Q1. destruct Q1 as [A [B D]]. apply Nat.eqb_eq in Q2.
+    exists (fst q). unfold trank in Q2. rewrite B in Q2, D. auto.
+Qed.
